@@ -113,7 +113,7 @@ def run(ck, tier):
         ck.samples.append({"source": "single-fault run", "event": inj[0] if inj else fevs[0]})
         # vacuity guard: every kind of provoked failure must actually make some call fail on a tree that holds
         if not ck.violations:
-            for site in ("tempfile", "encode", "sync", "seek", "decode", "pullread"):
+            for site in ("tempfile", "encode", "sync", "seek", "decode", "pullread", "pulltrunc"):
                 if not any(e["site"] == site and e["injected"] and e["reported"] for e in fevs):
                     raise vlib.Infra("fault site %s never produced a reported failure: the injection is ineffective" % site)
             if not any(e["site"] == "clearremove" and e["clearinjected"] and e["clearerr"] for e in fevs):
